@@ -194,7 +194,7 @@ def w4(x: uint256) -> uint256:
     r: uint256 = self.f4(unsafe_add(x, 0), unsafe_add(x, 1), unsafe_add(x, 2), unsafe_add(x, 3), unsafe_add(x, 4), unsafe_add(x, 5), unsafe_add(x, 6), unsafe_add(x, 7), unsafe_add(x, 8), unsafe_add(x, 9), unsafe_add(x, 10), unsafe_add(x, 11), unsafe_add(x, 12), unsafe_add(x, 13), unsafe_add(x, 14), unsafe_add(x, 15), unsafe_add(x, 16), unsafe_add(x, 17), unsafe_add(x, 18), unsafe_add(x, 19))
     r2: uint256 = self.f4(unsafe_add(x, 100), unsafe_add(x, 1), unsafe_add(x, 2), unsafe_add(x, 3), unsafe_add(x, 4), unsafe_add(x, 5), unsafe_add(x, 6), unsafe_add(x, 7), unsafe_add(x, 8), unsafe_add(x, 9), unsafe_add(x, 10), unsafe_add(x, 11), unsafe_add(x, 12), unsafe_add(x, 13), unsafe_add(x, 14), unsafe_add(x, 15), unsafe_add(x, 16), unsafe_add(x, 17), unsafe_add(x, 18), unsafe_add(x, 19))
     return unsafe_add(base, unsafe_add(r, unsafe_mul(r2, 3)))
-""", [("w4(uint256)", [0]), ("w4(uint256)", [3])]),
+""", [("w4(uint256)", [0]), ("w4(uint256)", [3])], "c14s:spill-region-aliases-caller-frame"),
     # same defect, no memory-passed argument: a caller memory array live across the call to a spilling callee
     ("""
 @internal
@@ -231,7 +231,7 @@ def w(x: uint256) -> uint256:
     for i: uint256 in range(8):
         s = unsafe_add(unsafe_mul(s, 3), arr[i])
     return unsafe_add(unsafe_add(r, unsafe_mul(r2, 5)), s)
-""", [("w(uint256)", [0]), ("w(uint256)", [11])]),
+""", [("w(uint256)", [0]), ("w(uint256)", [11])], "c14s:spill-region-aliases-caller-frame"),
 ]
 
 
